@@ -220,6 +220,15 @@ func (e *eng) holder(h int, wg *sync.WaitGroup) {
 		uh := e.sm.Lock(lm)
 		e.state[h].Store(stInside)
 		rc.Start = e.seq.Add(1)
+		if (h+r)%3 == 0 {
+			// the map is the caller's: it reuses it for its next request while it still holds the
+			// locks (what is held was decided at Lock time)
+			for k := range lm {
+				delete(lm, k)
+			}
+			lm[e.pool[(h+r)%len(e.pool)]+e.suffix(r)] = true
+			lm["never-locked-"+e.suffix(r)] = false
+		}
 		// online shadow table, entry
 		for i, ix := range st.Req.Idx {
 			c := &cs[ix]
